@@ -35,8 +35,8 @@ def static_size(D, d, depth=0):
 def element_pool(B):
     pool = {"num": [], "numneg": [], "negscale": [], "code": [], "flag": [], "ccitt": [], "wide": []}
     for d, (sc, ref, nb, typ) in B.items():
-        if regs.X(d) == 31 or regs.X(d) == 0:
-            continue
+        if regs.X(d) == 31 or regs.X(d) == 0 or nb <= 0:
+            continue      # zero-width entries (0 08 201 in the shipped table) are outside every property's quantifier
         if typ == regs.NUMERIC:
             if nb > 32: pool["wide"].append(d); continue
             if nb <= 0: continue
